@@ -560,6 +560,9 @@ SPECS = {
             r.is_ok() ==> r->Ok_0.vars == self.vars,
             r.is_ok() ==> r->Ok_0.ssa.output_count == cnt_output(self.ssa.tape@, self.ssa.tape@.len() as int),
             r.is_ok() ==> r->Ok_0.ssa.choice_count <= self.ssa.choice_count,
+            // S2: the result satisfies simplify's own preconditions again (chains of nested simplifications)
+            r.is_ok() ==> ssa_strict(r->Ok_0.ssa.tape@) && r->Ok_0.ssa.tape@.len() <= self.ssa.tape@.len()
+                && r->Ok_0.ssa.choice_count == cnt_choice(r->Ok_0.ssa.tape@, 0, r->Ok_0.ssa.tape@.len() as int),
             // S3: if the trace is valid for the parent run (every decided clause's value is the selected operand's, bit for
             // bit), the simplified SSA tape produces exactly the parent's outputs, from ANY initial environments
             r.is_ok() ==> forall|en: Env, eo: Env, o: Map<int, f32>, inp: Seq<f32>|
@@ -589,6 +592,8 @@ LOOP_INV = """            invariant
                 ops_out@.len() + nlive(workspace.alloc.allocations@, n) == output_count + workspace.count,
                 ssim(workspace.bind@, ops, k_ as int, ops_out@, choices@),
                 a0_.len() == n, forall|s: int| 0 <= s < n ==> #[trigger] a0_[s] == UNASSIGNED,
+                s2inv(ops_out@, workspace.alloc.allocations@, workspace.count, n),
+                ops_out@.len() <= k_, choice_count == cnt_choice(ops_out@, 0, ops_out@.len() as int),
                 simf(workspace.alloc.allocations@, a0_, workspace.alloc.out.tape@, 0, workspace.alloc.out.tape@.len() as int,
                      run_fe(ops_out@, ops_out@.len() as int), run_fo(ops_out@, ops_out@.len() as int)),
                 forall|k: int| 0 <= k < choices@.len() ==> !(#[trigger] choices@[k] is Unknown),
@@ -613,6 +618,10 @@ TAIL_PROOF_POST = """            proof {
                 lemma_nlive_diff(a_before, a_after, n, ssa_o(op), if kx_ >= 0 { ssa_a(op) } else { -1 }, if ky_ >= 0 { ssa_b(op) } else { -1 });
                 lemma_tail_len(w0.bind@, w0.count, a_before, ops, k0, kx_, ky_, op, workspace.bind@, workspace.count, a_after);
                 lemma_asm_step(a_after, a_before, a0_, w0.alloc.out.tape@, workspace.alloc.out.tape@, out0, op);
+                lemma_s2_emit(w0.bind@, w0.count, a_before, ops, k0, kx_, ky_, op, workspace.bind@, workspace.count);
+                lemma_s2_push(out0, a_before, w0.count, op, a_after, workspace.count, n);
+                lemma_cnt_choice_push(out0, op, 0);
+                assert(is_choice(op) == (choice_count == cc0_ + 1) && (choice_count == cc0_ || choice_count == cc0_ + 1));
             }"""
 
 
@@ -656,6 +665,7 @@ def generate(sem, enums, names):
             assert(ops_out@ =~= Seq::<SsaOp>::empty());
             lemma_ssim_init(workspace.bind@, ops, choices@);
             lemma_sim_start(workspace.alloc.allocations@, workspace.alloc.out.tape@, ops_out@);
+            lemma_s2_init(workspace.alloc.allocations@, n);
         }
         let ghost a0_ = workspace.alloc.allocations@;"""))
     proofs.append((Q, 'k_ += 1;', 0, True, """            proof {
@@ -669,7 +679,8 @@ def generate(sem, enums, names):
             let ghost op0 = op;
             let ghost k0 = k_ as int;
             let ghost w0 = *workspace;
-            let ghost out0 = ops_out@;"""))
+            let ghost out0 = ops_out@;
+            let ghost cc0_ = choice_count;"""))
     # --- Output arm (first match)
     proofs.append((Q, '*reg = workspace.get_or_insert_active(*reg);', 0, True, """                    proof { lemma_pre_output(w0.bind@, w0.count, w0.alloc.allocations@, ops, k0); }"""))
     proofs.append((Q, '*reg = workspace.get_or_insert_active(*reg);', 0, False, """                    proof {
@@ -683,6 +694,9 @@ def generate(sem, enums, names):
                         lemma_ssim_output(w0.bind@, w0.count, a_before, ops, k0, op, out0, choices@);
                         lemma_asm_step(a_after, a_before, a0_, w0.alloc.out.tape@, workspace.alloc.out.tape@, out0, op);
                         lemma_nlive_diff(a_before, a_after, n, ssa_o(op), -1, -1);
+                        lemma_s2_output(w0.bind@, w0.count, a_before, ops, k0, op);
+                        lemma_s2_push(out0, a_before, w0.count, op, a_after, workspace.count, n);
+                        lemma_cnt_choice_push(out0, op, 0);
                         if w0.bind@[ssa_o(op0)] != u32::MAX {
                             lemma_bound_arg_pending(w0.bind@, w0.count, a_before, ops, k0, ssa_o(op0));
                             lemma_pend_live(w0.bind@, w0.count, a_before, ops, k0, ssa_o(op0));
@@ -774,6 +788,7 @@ def generate(sem, enums, names):
             lemma_cnt_choice_bounds(ops, 0, n);
             lemma_ssim_end(workspace.bind@, ops, ops_out@, choices@);
             lemma_asm_end(workspace.alloc.allocations@, a0_, workspace.alloc.out.tape@, ops_out@);
+            lemma_s2_end(ops_out@, workspace.alloc.allocations@, workspace.count, n);
         }"""))
     # fix the placeholder: proof after `workspace.alloc.op(op);` at the tail = before `ops_out.push(op);` (second occurrence)
     proofs = [p for p in proofs if p[4] is not None]
@@ -1222,5 +1237,180 @@ proof fn lemma_asm_end(a: Seq<u32>, a0: Seq<u32>, tape: Seq<RegOp>, out: Seq<Ssa
             == (#[trigger] ssa_run_rev(out, 0, out.len() as int, Ss { env: env, outs: st.outs }, inp)).outs by {
         assert(agree(a, st.slots, env));
     }
+}
+"""
+
+
+# ================================================================================================
+# S2: the simplified SSA tape is again strict SSA with a correct choice count, so `simplify`'s postcondition
+#     re-establishes its own precondition (chains of nested simplifications)
+S3_PRELUDE += r"""
+proof fn lemma_live_ext(a: Seq<SsaOp>, b: Seq<SsaOp>, j: int)
+    requires 0 <= j <= a.len(), j <= b.len(), forall|k: int| 0 <= k < j ==> a[k] == b[k]
+    ensures live(a, j) == live(b, j)
+    decreases j
+{
+    if j > 0 { lemma_live_ext(a, b, j - 1); }
+}
+spec fn idx_lt(op: SsaOp, c: int) -> bool {
+    &&& 0 <= ssa_o(op) < c
+    &&& ssa_kind(op) >= 2 ==> 0 <= ssa_a(op) < c
+    &&& ssa_kind(op) == 4 ==> 0 <= ssa_b(op) < c
+}
+proof fn lemma_live_bound(out: Seq<SsaOp>, j: int, c: int, s: int)
+    requires 0 <= j <= out.len(), forall|k: int| 0 <= k < j ==> idx_lt(#[trigger] out[k], c), live(out, j).contains(s)
+    ensures 0 <= s < c
+    decreases j
+{
+    if j > 0 {
+        lemma_live_step(out, j - 1, s);
+        if live(out, j - 1).contains(s) { lemma_live_bound(out, j - 1, c, s); }
+    }
+}
+/// invariant of the emitted prefix: it is strict SSA "so far", its liveness is the allocator's live set, and every
+/// number whose definition has been emitted is dead for good
+#[verifier::opaque]
+spec fn s2inv(out: Seq<SsaOp>, a: Seq<u32>, count: u32, n: int) -> bool {
+    let m = out.len() as int;
+    &&& a.len() == n && count <= n
+    &&& forall|j: int| 0 <= j < m ==> idx_lt(#[trigger] out[j], count as int)
+    &&& forall|j: int| 0 <= j < m && ssa_kind(#[trigger] out[j]) >= 1 ==> a[ssa_o(out[j])] == UNASSIGNED
+    &&& forall|b: int| 0 <= b < n ==> ((#[trigger] a[b] != UNASSIGNED) == live(out, m).contains(b))
+    &&& forall|j: int, j2: int| 0 <= j < j2 < m && ssa_kind(#[trigger] out[j]) >= 1 ==> !uses(#[trigger] out[j2], ssa_o(out[j]))
+    &&& forall|j: int| 0 <= j < m ==> {
+            let op = #[trigger] out[j];
+            &&& ssa_kind(op) >= 1 ==> live(out, j).contains(ssa_o(op))
+            &&& ssa_kind(op) >= 2 ==> ssa_a(op) != ssa_o(op)
+            &&& ssa_kind(op) == 4 ==> ssa_b(op) != ssa_o(op)
+        }
+}
+proof fn lemma_s2_init(a: Seq<u32>, n: int)
+    requires a.len() == n, forall|b: int| 0 <= b < n ==> #[trigger] a[b] == UNASSIGNED
+    ensures s2inv(Seq::<SsaOp>::empty(), a, 0, n)
+{
+    reveal(s2inv);
+}
+/// every index the op reads (its arguments; for an Output clause the slot it outputs) is live or freshly numbered
+spec fn reads_live_or_fresh(op2: SsaOp, a: Seq<u32>, count: u32) -> bool {
+    forall|u: int| #[trigger] uses(op2, u) ==> (0 <= u < a.len() && (a[u] != UNASSIGNED || u >= count))
+}
+proof fn lemma_s2_push(out: Seq<SsaOp>, a: Seq<u32>, count: u32, op2: SsaOp, a2: Seq<u32>, count2: u32, n: int)
+    requires s2inv(out, a, count, n), count <= count2 <= n, a2.len() == n,
+        idx_lt(op2, count2 as int), ssa_o(op2) < count || ssa_kind(op2) == 0,
+        ssa_kind(op2) >= 1 ==> a[ssa_o(op2)] != UNASSIGNED,
+        ssa_kind(op2) >= 2 ==> ssa_a(op2) != ssa_o(op2),
+        ssa_kind(op2) == 4 ==> ssa_b(op2) != ssa_o(op2),
+        reads_live_or_fresh(op2, a, count),
+        forall|b: int| count <= b < n ==> #[trigger] a[b] == UNASSIGNED,
+        forall|b: int| 0 <= b < n ==> ((#[trigger] a2[b] != UNASSIGNED) == new_live(op2, a[b] != UNASSIGNED, b)),
+    ensures s2inv(out.push(op2), a2, count2, n)
+{
+    reveal(s2inv);
+    let m = out.len() as int;
+    let out2 = out.push(op2);
+    assert(out2[m] == op2);
+    lemma_live_ext(out2, out, m);
+    assert forall|j: int| 0 <= j <= m implies live(out2, j) == live(out, j) by { lemma_live_ext(out2, out, j); }
+    assert forall|b: int| 0 <= b < n implies ((#[trigger] a2[b] != UNASSIGNED) == live(out2, m + 1).contains(b)) by {
+        lemma_live_step(out2, m, b);
+    }
+    // numbers already defined stay dead: they are neither live nor fresh, so op2 does not read them
+    assert forall|j: int| 0 <= j < m + 1 && ssa_kind(#[trigger] out2[j]) >= 1 implies a2[ssa_o(out2[j])] == UNASSIGNED by {
+        if j < m {
+            let d = ssa_o(out[j]);
+            assert(out2[j] == out[j]);
+            assert(a[d] == UNASSIGNED && d < count);
+            assert(!uses(op2, d));
+        }
+    }
+    assert forall|j: int, j2: int| 0 <= j < j2 < m + 1 && ssa_kind(#[trigger] out2[j]) >= 1 implies !uses(#[trigger] out2[j2], ssa_o(out2[j])) by {
+        assert(out2[j] == out[j]);
+        if j2 == m {
+            let d = ssa_o(out[j]);
+            assert(a[d] == UNASSIGNED && d < count);
+        } else {
+            assert(out2[j2] == out[j2]);
+        }
+    }
+    assert forall|j: int| 0 <= j < m + 1 implies idx_lt(#[trigger] out2[j], count2 as int) by {
+        if j < m { assert(out2[j] == out[j]); assert(idx_lt(out[j], count as int)); }
+    }
+    assert forall|j: int| 0 <= j < m + 1 implies ({
+            let op = #[trigger] out2[j];
+            &&& ssa_kind(op) >= 1 ==> live(out2, j).contains(ssa_o(op))
+            &&& ssa_kind(op) >= 2 ==> ssa_a(op) != ssa_o(op)
+            &&& ssa_kind(op) == 4 ==> ssa_b(op) != ssa_o(op)
+        }) by {
+        if j < m { assert(out2[j] == out[j]); }
+    }
+}
+proof fn lemma_s2_end(out: Seq<SsaOp>, a: Seq<u32>, count: u32, n: int)
+    requires s2inv(out, a, count, n), count <= out.len(), forall|b: int| 0 <= b < n ==> #[trigger] a[b] == UNASSIGNED
+    ensures ssa_strict(out)
+{
+    reveal(s2inv);
+    let m = out.len() as int;
+    assert forall|s: int| !live(out, m).contains(s) by {
+        if live(out, m).contains(s) {
+            lemma_live_bound(out, m, count as int, s);
+            assert(a[s] != UNASSIGNED);
+        }
+    }
+    assert(live(out, m) =~= Set::empty());
+}
+proof fn lemma_cnt_choice_push(out: Seq<SsaOp>, op2: SsaOp, lo: int)
+    requires 0 <= lo <= out.len()
+    ensures cnt_choice(out.push(op2), lo, out.len() as int + 1) == cnt_choice(out, lo, out.len() as int) + if is_choice(op2) { 1int } else { 0int }
+    decreases out.len() - lo
+{
+    let out2 = out.push(op2);
+    if lo < out.len() {
+        lemma_cnt_choice_push(out, op2, lo + 1);
+        assert(out2[lo] == out[lo]);
+    } else {
+        assert(out2[lo] == op2);
+        assert(cnt_choice(out2, lo + 1, out.len() as int + 1) == 0);
+    }
+}
+/// what the renaming facts of an emitted op give to S2
+proof fn lemma_s2_emit(bind: Seq<u32>, count: u32, a: Seq<u32>, ops: Seq<SsaOp>, k: int, kx: int, ky: int, op2: SsaOp, bind2: Seq<u32>, count2: u32)
+    requires sinv(bind, count, a, ops, k), ssa_strict(ops), 0 <= k < ops.len(), ops.len() < 0x4000_0000,
+        bind[ssa_o(ops[k])] != u32::MAX, emits(bind, count, ops[k], kx, ky, op2, bind2, count2),
+    ensures idx_lt(op2, count2 as int), ssa_o(op2) < count, count <= count2 <= ops.len(),
+        a[ssa_o(op2)] != UNASSIGNED,
+        ssa_kind(op2) >= 2 ==> ssa_a(op2) != ssa_o(op2),
+        ssa_kind(op2) == 4 ==> ssa_b(op2) != ssa_o(op2),
+        reads_live_or_fresh(op2, a, count),
+        forall|b: int| count <= b < ops.len() ==> #[trigger] a[b] == UNASSIGNED,
+{
+    lemma_pre_emit(bind, count, a, ops, k, kx, ky, op2, bind2, count2);
+    lemma_fresh_dead(bind, count, a, ops, k);
+    lemma_sinv_facts(bind, count, a, ops, k);
+    let o = ssa_o(ops[k]);
+    let s1 = bind_step(bind, count, kx);
+    if kx >= 0 && bind[kx] != u32::MAX { lemma_bound_arg_pending(bind, count, a, ops, k, kx); lemma_pend_live(bind, count, a, ops, k, kx); }
+    if ky >= 0 && bind[ky] != u32::MAX { lemma_bound_arg_pending(bind, count, a, ops, k, ky); lemma_pend_live(bind, count, a, ops, k, ky); }
+    assert forall|u: int| #[trigger] uses(op2, u) implies (0 <= u < a.len() && (a[u] != UNASSIGNED || u >= count)) by {
+        if kx >= 0 && u == ssa_a(op2) {
+            if bind[kx] == u32::MAX { assert(bind2[kx] >= count); }
+        }
+        if ky >= 0 && u == ssa_b(op2) {
+            if s1.0[ky] == u32::MAX { assert(bind2[ky] >= count); } else if bind[ky] == u32::MAX { assert(ky == kx); }
+        }
+    }
+}
+proof fn lemma_s2_output(bind: Seq<u32>, count: u32, a: Seq<u32>, ops: Seq<SsaOp>, k: int, op2: SsaOp)
+    requires sinv(bind, count, a, ops, k), ssa_strict(ops), 0 <= k < ops.len(), ops.len() < 0x4000_0000, ssa_kind(ops[k]) == 0,
+        ssa_kind(op2) == 0, ssa_o(op2) == bind_step(bind, count, ssa_o(ops[k])).0[ssa_o(ops[k])],
+    ensures idx_lt(op2, bind_step(bind, count, ssa_o(ops[k])).1 as int), count <= bind_step(bind, count, ssa_o(ops[k])).1 <= ops.len(),
+        reads_live_or_fresh(op2, a, count),
+        forall|b: int| count <= b < ops.len() ==> #[trigger] a[b] == UNASSIGNED,
+{
+    let x = ssa_o(ops[k]);
+    lemma_pre_output(bind, count, a, ops, k);
+    lemma_fresh_dead(bind, count, a, ops, k);
+    lemma_sinv_facts(bind, count, a, ops, k);
+    lemma_covered_step(bind, count, x);
+    if bind[x] != u32::MAX { lemma_bound_arg_pending(bind, count, a, ops, k, x); lemma_pend_live(bind, count, a, ops, k, x); }
 }
 """
